@@ -599,6 +599,19 @@ fn boundary_classes(lower: u128, range: u128, w: u32, s: u32) -> Vec<&'static st
     if lr == 0 { v.push("lo=0"); }
     if lr == 1 { v.push("lo=1"); }
     if lr == u - 1 { v.push("lo=-1"); }
+    // two seal words (point word = upper word) with the upper end next to a boundary: the
+    // configurations in which the zero word decides whether a suffix can leave the interval
+    let pw = (lower.wrapping_add(u - 1) & m) >> (s - w);
+    if pw == up >> (s - w) {
+        if ur == u - 1 { v.push("2words&up=-1"); }
+        if ur == u - 2 { v.push("2words&up=-2"); }
+        if ur == 1 { v.push("2words&up=1"); }
+        if ur == 2 { v.push("2words&up=2"); }
+    } else {
+        if ur == 0 { v.push("1word&up=0"); }
+        if ur == 1 { v.push("1word&up=1"); }
+        if ur == u - 1 { v.push("1word&up=-1"); }
+    }
     if s > 2 * w {
         let z = 1u128 << (s - 2 * w);
         if ur < z { v.push("up.lowzone"); }
@@ -726,21 +739,26 @@ fn final_candidates(rng: &mut Rng, lower: u128, range: u128, w: u32, s: u32, p: 
     out
 }
 
-const HUNT_CLASSES: [&str; 12] = [
-    "up=0", "up=1", "up=2", "up=-1", "up=-2", "lo=0", "lo=1", "lo=-1", "up.lowzone", "up.highzone", "lo.lowzone", "lo.highzone",
+const HUNT_CLASSES: [&str; 19] = [
+    "up=0", "up=1", "up=2", "up=-1", "up=-2", "lo=0", "lo=1", "lo=-1",
+    "2words&up=-1", "2words&up=-1", "2words&up=-2", "2words&up=1", "2words&up=2", "1word&up=0", "1word&up=-1",
+    "up.lowzone", "up.highzone", "lo.lowzone", "lo.highzone",
 ];
 
 /// the last symbol of a hunted message: tries the candidates on clones of the live encoder and
 /// returns one whose final state falls into the wanted class (or any class, or `None`)
-fn hunt_final<C: RangeCombo>(rng: &mut Rng, e: &Enc<C>, w: u32, s: u32, b: u32, p: u32, budget: usize) -> Option<(Vec<u128>, usize, bool)> {
+fn pick_hunt_class(rng: &mut Rng, w: u32, s: u32) -> &'static str {
+    let nclass = if s > 2 * w { HUNT_CLASSES.len() } else { 15 };
+    HUNT_CLASSES[rng.below(nclass as u128) as usize]
+}
+
+fn hunt_final<C: RangeCombo>(rng: &mut Rng, e: &Enc<C>, w: u32, s: u32, b: u32, p: u32, budget: usize, want: &'static str) -> Option<(Vec<u128>, usize, bool)> {
     let (lower, range, _) = enc_view::<C>(e);
     let mut cands = final_candidates(rng, lower, range, w, s, p);
     for i in (1..cands.len()).rev() {
         let j = rng.below(i as u128 + 1) as usize;
         cands.swap(i, j);
     }
-    let nclass = if s > 2 * w { HUNT_CLASSES.len() } else { 8 };
-    let want = HUNT_CLASSES[rng.below(nclass as u128) as usize];
     let mut fallback: Option<(Vec<u128>, usize)> = None;
     for &(cum, q) in cands.iter().take(budget) {
         let (cdf, sym) = cdf_around(p, cum, q);
@@ -762,18 +780,21 @@ fn hunt_final<C: RangeCombo>(rng: &mut Rng, e: &Enc<C>, w: u32, s: u32, b: u32, 
 
 /// the symbol before the last one of a hunted message: prefers a choice after which
 /// `hunt_final` succeeds
-fn hunt_prep<C: RangeCombo>(rng: &mut Rng, e: &Enc<C>, w: u32, s: u32, b: u32, p: u32, pool: &[(u32, u32, Vec<u128>)]) -> (Vec<u128>, usize) {
+fn hunt_prep<C: RangeCombo>(rng: &mut Rng, e: &Enc<C>, w: u32, s: u32, b: u32, p: u32, pool: &[(u32, u32, Vec<u128>)], want: &'static str) -> (Vec<u128>, usize) {
     let mut last = steer::<C>(rng, e, w, s, p, pool, b);
-    for _ in 0..6 {
+    let mut some: Option<(Vec<u128>, usize)> = None;
+    for _ in 0..10 {
         let mode = match rng.next() % 3 { 0 => Some(7), 1 => Some(4), _ => None };
         let (cdf, sym) = steer_mode::<C>(rng, e, w, s, p, pool, b, mode);
         let mut e2 = e.clone();
         if matches!(guarded(|| C::enc_sym(&mut e2, b, p, &cdf, sym)), Ok(Some(ref x)) if x == "ok") {
-            if hunt_final::<C>(rng, &e2, w, s, b, p, 8).is_some() {
-                return (cdf, sym);
+            match hunt_final::<C>(rng, &e2, w, s, b, p, 12, want) {
+                Some((_, _, true)) => return (cdf, sym),
+                Some(_) if some.is_none() => some = Some((cdf.clone(), sym)),
+                _ => {}
             }
         }
         last = (cdf, sym);
     }
-    last
+    some.unwrap_or(last)
 }
